@@ -137,6 +137,14 @@ func Run(f func()) {
 // Settle lets pending same-instant timers and goroutines finish.
 func Settle() { synctest.Wait() }
 
+// RecoverPlain runs RecoverSwaps in the calling goroutine (no bubble).
+func (n *Node) RecoverPlain() { _ = n.Svc.RecoverSwaps() }
+
+// Handler returns the message handler the service registered.
+func (n *Node) Handler() func(peerId string, msgType string, payload []byte) error {
+	return n.Msgr.handler
+}
+
 func (n *Node) Recover() {
 	Run(func() {
 		n.Life.Op(false)
